@@ -50,7 +50,148 @@ package k8s
 //@   requires [C01] sec <= MaxUnixSec
 //@   ensures t == sec * 1000000000 + nsec
 
+// taintTimeOK(s): s is a base-10 int64 that time.Unix can represent
+//@ spec taintTimeOK(s string) bool = parseIntOK(s) && parseIntVal(s) <= MaxUnixSec
+
 //@ func GetToBeRemovedTime(node) (res, err)
 //@   requires node != nil
 //@   ensures !hasEsc(node) ==> res == nil && err == nil
-//@   ensures [C01] hasEsc(node) ==> (exists i :: keyAt(node, ToBeRemovedByAutoscalerKey, i) && (parseIntOK(node.Spec.Taints[i].Value) ==> err == nil && res != nil && deref(res) == parseIntVal(node.Spec.Taints[i].Value) * 1000000000) && (!parseIntOK(node.Spec.Taints[i].Value) ==> err != nil && res == nil))
+//@   ensures [C01] hasEsc(node) ==> (exists i :: keyAt(node, ToBeRemovedByAutoscalerKey, i) && (taintTimeOK(node.Spec.Taints[i].Value) ==> err == nil && res != nil && deref(res) == parseIntVal(node.Spec.Taints[i].Value) * 1000000000) && (!taintTimeOK(node.Spec.Taints[i].Value) ==> err != nil && res == nil))
+
+// ---------------------------------------------------------------- the journal
+// Every write escalator issues (Kubernetes or cloud) appends one event.
+//   Jkind[i]  what was called          Jname[i]  node name / cloud group id / instance id
+//   Jnode[i]  the object sent (K_UPDATE)   Jnum[i]  a number (delta, desired size, batch length)
+//   Jok[i]    the call returned no error   Jesc[i]  (K_UPDATE) the object sent carries the escalator taint
+//@ ghost Jlen int
+//@ ghost Jkind [int]int
+//@ ghost Jname [int]string
+//@ ghost Jnode [int]ref
+//@ ghost Jnum [int]int
+//@ ghost Jok [int]bool
+//@ ghost Jesc [int]bool
+//@ const K_UPDATE = 1
+//@ const K_DELETE = 2
+//@ const C_INCREASE = 3
+//@ const C_DELETENODES = 4
+//@ const A_SETDESIRED = 5
+//@ const A_TERMASG = 6
+//@ const A_ATTACH = 7
+//@ const A_FLEET = 8
+//@ const A_TERM = 9
+//@ const A_TAGS = 10
+
+//@ import corev1 "k8s.io/client-go/kubernetes/typed/core/v1"
+
+//@ iface k8s.io/client-go/kubernetes.Interface.CoreV1(c) (r)
+//@   pure
+//@   ensures r != nil
+//@ iface k8s.io/client-go/kubernetes/typed/core/v1.CoreV1Interface.Nodes(c) (r)
+//@   pure
+//@   ensures r != nil
+
+// Get: no event. On success the object is a fresh copy (or nil) named as asked.
+// got*(n, ...): the taints the object had when it was fetched (a fetched object is
+// fresh, so these are plain functions of the object).
+//@ spec gotLen(n *v1.Node) int
+//@ spec gotKey(n *v1.Node, i int) string
+//@ spec gotVal(n *v1.Node, i int) string
+//@ spec gotEff(n *v1.Node, i int) string
+//@ spec gotHasEsc(n *v1.Node) bool = exists i :: 0 <= i && i < gotLen(n) && gotKey(n, i) == ToBeRemovedByAutoscalerKey
+//@ spec gotEscAt(n *v1.Node, i int) bool = 0 <= i && i < gotLen(n) && gotKey(n, i) == ToBeRemovedByAutoscalerKey && (forall j :: 0 <= j && j < i ==> gotKey(n, j) != ToBeRemovedByAutoscalerKey)
+//@ iface k8s.io/client-go/kubernetes/typed/core/v1.NodeInterface.Get(c, ctx, name, opts) (n, err)
+//@   ensures n == nil || fresh(n)
+//@   ensures n != nil ==> base(n.Spec.Taints) == nil || fresh(base(n.Spec.Taints))
+//@   ensures err == nil && n != nil ==> n.Name == name
+//@   ensures n != nil ==> gotLen(n) == len(n.Spec.Taints) && (forall i :: 0 <= i && i < gotLen(n) ==> gotKey(n, i) == n.Spec.Taints[i].Key && gotVal(n, i) == n.Spec.Taints[i].Value && gotEff(n, i) == n.Spec.Taints[i].Effect)
+
+// Update: one event; may fail arbitrarily; never touches the object sent.
+//@ iface k8s.io/client-go/kubernetes/typed/core/v1.NodeInterface.Update(c, ctx, node, opts) (r, err)
+//@   requires node != nil
+//@   modifies Jlen, Jkind, Jname, Jnode, Jok, Jesc
+//@   ensures Jlen == old(Jlen) + 1
+//@   ensures Jkind == old(Jkind)[old(Jlen) := K_UPDATE] && Jname == old(Jname)[old(Jlen) := node.Name] && Jnode == old(Jnode)[old(Jlen) := node]
+//@   ensures Jok == old(Jok)[old(Jlen) := err == nil] && Jesc == old(Jesc)[old(Jlen) := hasEsc(node)]
+//@   ensures r == nil || fresh(r)
+
+//@ iface k8s.io/client-go/kubernetes/typed/core/v1.NodeInterface.Delete(c, ctx, name, opts) (err)
+//@   modifies Jlen, Jkind, Jname, Jok
+//@   ensures Jlen == old(Jlen) + 1
+//@   ensures Jkind == old(Jkind)[old(Jlen) := K_DELETE] && Jname == old(Jname)[old(Jlen) := name] && Jok == old(Jok)[old(Jlen) := err == nil]
+
+// ---------------------------------------------------------------- node.go
+
+//@ func DeleteNode(node, client) (err)
+//@   requires node != nil && client != nil
+//@   modifies Jlen, Jkind, Jname, Jok
+//@   ensures Jlen == old(Jlen) + 1
+//@   ensures Jkind == old(Jkind)[old(Jlen) := K_DELETE] && Jname == old(Jname)[old(Jlen) := node.Name] && Jok == old(Jok)[old(Jlen) := err == nil]
+
+// DeleteNodes: K_DELETE events for a prefix of nodes, in order; all of them iff no error.
+//@ func DeleteNodes(nodes, client) (err)
+//@   requires client != nil
+//@   requires forall i :: 0 <= i && i < len(nodes) ==> nodes[i] != nil
+//@   modifies Jlen, Jkind, Jname, Jok
+//@   ensures [C01,C09,C10,C11,C19] old(Jlen) <= Jlen && Jlen <= old(Jlen) + len(nodes)
+//@   ensures [C01,C09,C10,C11,C19] forall k :: old(Jlen) <= k && k < Jlen ==> Jkind[k] == K_DELETE && Jname[k] == nodes[k - old(Jlen)].Name
+//@   ensures [C01,C09,C10,C11,C19] forall k :: 0 <= k && k < old(Jlen) ==> Jkind[k] == old(Jkind)[k] && Jname[k] == old(Jname)[k] && Jok[k] == old(Jok)[k]
+//@   ensures [C19] err == nil ==> Jlen == old(Jlen) + len(nodes)
+//@ loop #0
+//@   invariant Jlen == old(Jlen) + #i
+//@   invariant forall k :: old(Jlen) <= k && k < Jlen ==> Jkind[k] == K_DELETE && Jname[k] == nodes[k - old(Jlen)].Name
+//@   invariant forall k :: 0 <= k && k < old(Jlen) ==> Jkind[k] == old(Jkind)[k] && Jname[k] == old(Jname)[k] && Jok[k] == old(Jok)[k]
+
+// ---------------------------------------------------------------- taint.go: writes
+
+//@ spec fmtInt(v int) string
+//@ axiom forall v int :: parseIntOK(fmtInt(v)) && parseIntVal(fmtInt(v)) == v
+//@ assume func fmt.Sprint(args) (s)
+//@   pure
+//@   ensures len(args) == 1 && typeis(args[0], "int64") ==> s == fmtInt(unbox(args[0], "int64"))
+//@ ghost clock int
+//@ assume func time.Now() (t)
+//@   modifies clock
+//@   ensures clock >= old(clock) && t == clock
+//@ assume func (time.Time).Unix(t) (s)
+//@   pure
+//@   ensures s * 1000000000 <= t && t < (s + 1) * 1000000000
+
+//@ spec addedTo(u *v1.Node) []v1.Taint = u.Spec.Taints
+
+// C15. Tainting: the object fetched (u) is the object sent; it is sent only if it did
+// not carry the taint when fetched; it then carries the fetched taints, in order,
+// plus exactly one new one; nothing else of any Node is written.
+//@ func AddToBeRemovedTaint(node, client, taintEffect) (r, err)
+//@   requires node != nil && client != nil
+//@   modifies Jlen, Jkind, Jname, Jnode, Jok, Jesc, clock
+//@   onlywrites [C15] "^H:(v1|metav1)\\." : "^H:v1\\.NodeSpec\\.Taints\\.|^H:v1\\.Taint\\."
+//@   ensures clock >= old(clock)
+//@   ensures old(Jlen) <= Jlen && Jlen <= old(Jlen) + 1
+//@   ensures forall k :: 0 <= k && k < old(Jlen) ==> Jkind[k] == old(Jkind)[k] && Jname[k] == old(Jname)[k] && Jok[k] == old(Jok)[k] && Jnode[k] == old(Jnode)[k] && Jesc[k] == old(Jesc)[k]
+//@   ensures Jlen == old(Jlen) + 1 ==> Jkind[old(Jlen)] == K_UPDATE && Jname[old(Jlen)] == node.Name && Jesc[old(Jlen)] && fresh(Jnode[old(Jlen)])
+//@   ensures err == nil ==> r != nil
+//@   ensures [C15] Jlen == old(Jlen) + 1 ==> !gotHasEsc(Jnode[old(Jlen)])
+//@   ensures [C15] Jlen == old(Jlen) + 1 ==> len(addedTo(Jnode[old(Jlen)])) == gotLen(Jnode[old(Jlen)]) + 1
+//@   ensures [C15] Jlen == old(Jlen) + 1 ==> (forall i :: 0 <= i && i < gotLen(Jnode[old(Jlen)]) ==> addedTo(Jnode[old(Jlen)])[i].Key == gotKey(Jnode[old(Jlen)], i) && addedTo(Jnode[old(Jlen)])[i].Value == gotVal(Jnode[old(Jlen)], i) && addedTo(Jnode[old(Jlen)])[i].Effect == gotEff(Jnode[old(Jlen)], i))
+//@   ensures [C15] Jlen == old(Jlen) + 1 ==> addedTo(Jnode[old(Jlen)])[gotLen(Jnode[old(Jlen)])].Key == ToBeRemovedByAutoscalerKey
+//@   ensures [C15] Jlen == old(Jlen) + 1 ==> addedTo(Jnode[old(Jlen)])[gotLen(Jnode[old(Jlen)])].Effect == (len(taintEffect) > 0 ? taintEffect : v1.TaintEffectNoSchedule)
+//@   ensures [C15] Jlen == old(Jlen) + 1 ==> (exists s :: old(clock) <= s * 1000000000 + 999999999 && s * 1000000000 <= clock && addedTo(Jnode[old(Jlen)])[gotLen(Jnode[old(Jlen)])].Value == fmtInt(s))
+//@ loop #0
+//@   invariant forall j :: 0 <= j && j < #i ==> updatedNode.Spec.Taints[j].Key != ToBeRemovedByAutoscalerKey
+
+// C15. Untainting: sent only if the fetched object carries the taint; the first such
+// taint is overwritten by the last one and the list shortened by one, so exactly
+// that taint is gone and every other one is kept; nothing else of any Node is written.
+//@ func DeleteToBeRemovedTaint(node, client) (r, err)
+//@   requires node != nil && client != nil
+//@   modifies Jlen, Jkind, Jname, Jnode, Jok, Jesc
+//@   onlywrites [C15] "^H:(v1|metav1)\\." : "^H:v1\\.NodeSpec\\.Taints\\.|^H:v1\\.Taint\\."
+//@   ensures old(Jlen) <= Jlen && Jlen <= old(Jlen) + 1
+//@   ensures forall k :: 0 <= k && k < old(Jlen) ==> Jkind[k] == old(Jkind)[k] && Jname[k] == old(Jname)[k] && Jok[k] == old(Jok)[k] && Jnode[k] == old(Jnode)[k] && Jesc[k] == old(Jesc)[k]
+//@   ensures Jlen == old(Jlen) + 1 ==> Jkind[old(Jlen)] == K_UPDATE && Jname[old(Jlen)] == node.Name && fresh(Jnode[old(Jlen)])
+//@   ensures err == nil ==> r != nil
+//@   ensures [C15] Jlen == old(Jlen) + 1 ==> gotHasEsc(Jnode[old(Jlen)]) && len(addedTo(Jnode[old(Jlen)])) == gotLen(Jnode[old(Jlen)]) - 1
+//@   ensures [C15] Jlen == old(Jlen) + 1 ==> (exists i :: gotEscAt(Jnode[old(Jlen)], i) && (forall j :: 0 <= j && j < gotLen(Jnode[old(Jlen)]) - 1 ==> addedTo(Jnode[old(Jlen)])[j].Key == gotKey(Jnode[old(Jlen)], (j == i ? gotLen(Jnode[old(Jlen)]) - 1 : j)) && addedTo(Jnode[old(Jlen)])[j].Value == gotVal(Jnode[old(Jlen)], (j == i ? gotLen(Jnode[old(Jlen)]) - 1 : j)) && addedTo(Jnode[old(Jlen)])[j].Effect == gotEff(Jnode[old(Jlen)], (j == i ? gotLen(Jnode[old(Jlen)]) - 1 : j))))
+//@   ensures [C15] Jlen == old(Jlen) && err == nil ==> !gotHasEsc(r)
+//@ loop #0
+//@   invariant forall j :: 0 <= j && j < #i ==> updatedNode.Spec.Taints[j].Key != ToBeRemovedByAutoscalerKey
